@@ -11,7 +11,11 @@
 (*   [op |-> "exit",   out |-> "nil"|"err"|"panic", sw |-> BOOLEAN,        *)
 (*                     f |-> BOOLEAN]                                      *)
 (*         the block's function ends; sw: the PARENT swallows the error    *)
-(*         this block returns; f: the COMMIT of an outermost block fails   *)
+(*         this block returns (for out = "panic": the parent recovers the  *)
+(*         panic and carries on); f: the COMMIT of an outermost block fails*)
+(*   write.via: how the handle the write goes through was derived from the *)
+(*         block's handle ("" directly, "prep" Session{PrepareStmt},       *)
+(*         "sess" Session{}, "ctx" WithContext) -- no effect on the model  *)
 (*   manual programs: "mbegin" "msave" "mrollto"(k) "mcommit" "mrollback"  *)
 (* The state machine below is the snapshot-stack reference model; Step is  *)
 (* shared by the exhaustive exploration (Next) and by trace validation     *)
@@ -19,7 +23,7 @@
 (***************************************************************************)
 EXTENDS Integers, Sequences, FiniteSets, TLC
 
-CONSTANTS MaxActs, MaxWrites, MaxDepth, MaxBlocks,
+CONSTANTS MaxActs, MaxWrites, MaxDepth, MaxBlocks, Vias,
           Nested,      \* FALSE: DisableNestedTransaction
           Faults       \* TRUE: one driver fault may be injected
 
@@ -60,7 +64,7 @@ Step(st, a, nested) ==
                              !.mode = "run", !.faulted = (st.faulted \/ a.f)]
          ELSE LET kept == IF fr.kind = "flat" \/ a.out = "nil" THEN fr.w ELSE {}   \* sp: failure undoes exactly its own writes
                   q == AddTop(p, kept)
-              IN [q EXCEPT !.mode = CASE a.out = "panic" -> "panic"
+              IN [q EXCEPT !.mode = CASE a.out = "panic" /\ ~a.sw -> "panic"
                                       [] a.out = "err" /\ ~a.sw -> "fail"
                                       [] OTHER -> "run",
                            !.ek = ek]
@@ -77,7 +81,7 @@ IfSet(c, S) == IF c THEN S ELSE {}
 FB(c) == IF c THEN BOOLEAN ELSE {FALSE}
 Enabled(st, nested) ==
   IF st.manual THEN
-          IfSet(st.nw < MaxWrites, {[op |-> "write", id |-> st.nw + 1, f |-> FALSE]})
+          IfSet(st.nw < MaxWrites, {[op |-> "write", id |-> st.nw + 1, f |-> FALSE, via |-> ""]})
      \cup IfSet(Len(st.reads) < 1, {[op |-> "read"]})
      \cup IfSet(Depth(st) < MaxDepth + 1, {[op |-> "msave"]})
      \cup {[op |-> "mrollto", k |-> k] : k \in 2..Depth(st)}
@@ -89,12 +93,12 @@ Enabled(st, nested) ==
      \* the error of a refused SAVEPOINT / statement is propagated by every enclosing block
      {[op |-> "exit", out |-> "err", sw |-> sw, f |-> FALSE] : sw \in FB(Depth(st) > 1 /\ ~st.poison)}
   ELSE LET canF == Faults /\ ~st.faulted IN
-          IfSet(st.nw < MaxWrites, {[op |-> "write", id |-> st.nw + 1, f |-> f] : f \in FB(canF)})
+          IfSet(st.nw < MaxWrites, {[op |-> "write", id |-> st.nw + 1, f |-> f, via |-> v] : f \in FB(canF), v \in Vias})
      \cup IfSet(Len(st.reads) < 1, {[op |-> "read"]})
      \cup IfSet(Depth(st) < MaxDepth /\ st.nb < MaxBlocks, {[op |-> "enter", f |-> f] : f \in FB(canF /\ nested)})
      \cup {[op |-> "exit", out |-> "nil", sw |-> FALSE, f |-> f] : f \in FB(canF /\ Depth(st) = 1)}
      \cup {[op |-> "exit", out |-> "err", sw |-> sw, f |-> FALSE] : sw \in FB(Depth(st) > 1)}
-     \cup {[op |-> "exit", out |-> "panic", sw |-> FALSE, f |-> FALSE]}
+     \cup {[op |-> "exit", out |-> "panic", sw |-> sw, f |-> FALSE] : sw \in FB(Depth(st) > 1)}
 
 RECURSIVE RunFrom(_, _, _, _)
 RunFrom(st, prog, i, nested) == IF i > Len(prog) THEN st ELSE RunFrom(Step(st, prog[i], nested), prog, i + 1, nested)
